@@ -41,6 +41,9 @@ pub const FILE_NAMES: &[&str] = &[
     "tilde~1.txt",
     "at@sign.txt",
     "equals=sign.txt",
+    "---",
+    "dir/---",
+    "new\nline.txt",
 ];
 pub const N_PLAIN_NAMES: usize = 4;
 
@@ -295,6 +298,31 @@ impl World {
         let p = if path.starts_with('-') { format!("./{}", path) } else { path.to_string() };
         let o = self.sb.git_ai(cwd, &["blame", "--json", &p]);
         parse_blame_json(&o)
+    }
+
+    /// commit that plain `git blame HEAD` assigns to every line of `path` (by content key)
+    pub fn blame_commit_by_key(&mut self, path: &str) -> BTreeMap<String, String> {
+        let o = self.rgit(&["--literal-pathspecs", "blame", "--porcelain", "HEAD", "--", path]);
+        let mut m = BTreeMap::new();
+        if !o.ok() {
+            return m;
+        }
+        let text = String::from_utf8_lossy(&o.stdout).into_owned();
+        let mut cur: Option<String> = None;
+        for l in text.split('\n') {
+            if let Some(c) = l.strip_prefix('\t') {
+                if let Some(sha) = &cur {
+                    let c = c.strip_suffix('\r').unwrap_or(c);
+                    m.insert(key_of(c), sha.clone());
+                }
+            } else {
+                let first = l.split(' ').next().unwrap_or("");
+                if first.len() == 40 && first.bytes().all(|b| b.is_ascii_hexdigit()) {
+                    cur = Some(first.to_string());
+                }
+            }
+        }
+        m
     }
 
     pub fn note_raw(&mut self, commit: &str) -> Option<String> {
